@@ -120,7 +120,8 @@ theorem bind_keys_nodup {km : KeyMap} (h : (km.map (·.1)).Nodup) (k : String) (
 theorem add_keys {r r' : Registry} {s : Stmt} (h : r.add s = .ok r')
     (h1 : (r.modules.map (·.1)).Nodup) (h2 : (r.subModules.map (·.1)).Nodup) :
     (r'.modules.map (·.1)).Nodup ∧ (r'.subModules.map (·.1)).Nodup := by
-  unfold Registry.add at h
+  have h := (Registry.add_ok h).2
+  unfold Registry.addChecked at h
   simp only at h
   generalize ({ seq := r.mods.length, stmt := s } : Mod) = m at h
   cases hsub : m.isSub with
